@@ -17,7 +17,8 @@ from mc.core.device import damage_images
 from mc.core.evidence import Check, Shard, digest
 from mc.core.pool import Pool, chunks
 from mc.gen import bases as basegen
-from mc.lib7z import Collect, install_key_cache, tree_snapshot
+from mc.gen import chains
+from mc.lib7z import Collect, fixed_random, install_key_cache, tree_snapshot
 from mc.selftest import fixtures
 
 MODULE = "mc.checks.c19"
@@ -366,10 +367,22 @@ def shard(task):
         with open(os.path.join(gen, "nostreams.7z"), "wb") as f:
             f.write(ref7z.write([{"name": "d", "kind": "dir", "data": None, "mtime": 132223104000000000, "attr": 0x10},
                                  {"name": "d/e.txt", "kind": "emptyfile", "data": b"", "mtime": 132223104000000001, "attr": 0x20}]))
+        # archives py7zr itself writes with a password (they record CRCs of the packed streams, unlike the third-party
+        # fixtures: an integrity test that stops at those CRCs never needs the password - seeded change C19e)
+        import py7zr
+
+        PYENC = []
+        for name, chain, hdr in (("py-aes-data.7z", "COPY+AES", False), ("py-aes-lzma2.7z", "LZMA2+AES", False), ("py-aes-header.7z", "LZMA2+AES", True)):
+            with fixed_random("c19-" + name), py7zr.SevenZipFile(os.path.join(gen, name), "w", filters=chains.py_filters(chain), password="secret") as z:
+                if hdr:
+                    z.set_encrypted_header(True)
+                z.writestr(b"needs the password " * 4, "a.txt")
+                z.writestr(b"second member", "d/b.txt")
+            PYENC.append(os.path.join(gen, name))
         GOOD = ("test_1.7z", "empty.7z", "test_folder.7z", "nostreams.7z")
-        for path in fixtures() + [os.path.join(gen, "nostreams.7z")]:
+        for path in fixtures() + [os.path.join(gen, "nostreams.7z")] + PYENC:
             n = os.path.basename(path)
-            if n not in ("encrypted_1.7z", "encrypted_3.7z", "filename_encryption.7z", "lz4.7z", "lzma_bcj2_1.7z", "zstdmt-brotli.7z", "crc_corrupted.7z", "data_corrupted.7z") + GOOD:
+            if n not in ("encrypted_1.7z", "encrypted_3.7z", "filename_encryption.7z", "lz4.7z", "lzma_bcj2_1.7z", "zstdmt-brotli.7z", "crc_corrupted.7z", "data_corrupted.7z") + GOOD and path not in PYENC:
                 continue
             base = os.path.join(wd, "c19s")
             shutil.rmtree(base, ignore_errors=True)
